@@ -38,6 +38,7 @@ class Transient(RuntimeError):
 
 class HashLM(MixableSequentialLanguageModel):
     fail_next = False  # set on an instance: its next step raises Transient (once)
+    mutating = False   # set on an instance: the model writes its state into the very dict it was handed (and returns it)
 
     def __init__(self, spec: dict, cap: Optional[int] = None):
         super().__init__(int(spec["V"]))
@@ -57,7 +58,7 @@ class HashLM(MixableSequentialLanguageModel):
     # -- state handling -------------------------------------------------------------
     def update_input(self, prev: Dict[str, torch.Tensor], hist: torch.Tensor) -> Dict[str, torch.Tensor]:
         N = hist.size(1)
-        out = dict(prev)
+        out = prev if self.mutating else dict(prev)
         if "cond" not in out:
             out["cond"] = torch.zeros(N, dtype=torch.long)
         if "state" not in out:
@@ -94,6 +95,9 @@ class HashLM(MixableSequentialLanguageModel):
         logits = (self.table.index_select(0, new_state) + self.cond.index_select(0, cond)).to(torch.float32) / self.q
         # optional zero-probability tokens (spec["ninf"] = [[state, token], ...])
         logits = logits.masked_fill(self.ninf.index_select(0, new_state), float("-inf"))
+        if self.mutating:
+            prev["state"] = new_state
+            return logits, prev
         return logits, {"state": new_state, "cond": cond}
 
 
